@@ -16,9 +16,11 @@ def main():
         # targeted families completely, the large cross products thinned
         outs, jobs = games.run_movegen_families(chk, ["ep", "pin"], nshards=16, density=16)
         o2, j2 = games.run_movegen_families(chk, ["castle", "promopin"], nshards=8, density=1)
-        o3, j3 = games.run_movegen_families(chk, ["dblchk", "promo", "kingwalk", "evade"], nshards=16, density=16,
+        o3, j3 = games.run_movegen_families(chk, ["dblchk", "kingwalk", "evade"], nshards=16, density=16,
                                             shards=[chk.seed % 16, (chk.seed + 5) % 16])
-        outs, jobs = outs + o2 + o3, jobs + j2 + j3
+        # the promo family is split by pawn file: 8 shards
+        o4, j4 = games.run_movegen_families(chk, ["promo"], nshards=8, density=16, shards=[chk.seed % 8, (chk.seed + 5) % 8])
+        outs, jobs = outs + o2 + o3 + o4, jobs + j2 + j3 + j4
     else:
         outs, jobs = games.run_movegen_families(chk, fams, nshards=16, density=1)
     n_gen = n_dist = n_nontriv = 0
